@@ -31,7 +31,7 @@ extern int TOOL_MAIN(int, char **);
 
 extern "C" const char *__asan_default_options() __attribute__((used, visibility("default")));
 extern "C" const char *__asan_default_options()
-{ return "exitcode=77:detect_leaks=0:abort_on_error=0:handle_abort=1:handle_sigfpe=1:allocator_may_return_null=1:detect_stack_use_after_return=0:max_allocation_size_mb=1024:malloc_context_size=0"; }
+{ return "exitcode=77:detect_leaks=0:abort_on_error=0:handle_abort=1:handle_sigfpe=1:allocator_may_return_null=1:detect_stack_use_after_return=0:max_allocation_size_mb=1024:malloc_context_size=0:symbolize=0"; }
 extern "C" const char *__tsan_default_options() __attribute__((used, visibility("default")));
 extern "C" const char *__tsan_default_options() { return "exitcode=0:halt_on_error=0:report_signal_unsafe=0:die_after_fork=0"; }
 
